@@ -261,7 +261,15 @@ pub fn framing_ok(delta: &[u8], data: &[u8], n: usize, fg: u8, bg: u8) -> Result
 /// made by the harness could mask state that the code under test keeps from one call to the next).
 fn reference_frames() -> &'static Vec<(Vec<u8>, Vec<u8>)> {
     static F: std::sync::OnceLock<Vec<(Vec<u8>, Vec<u8>)>> = std::sync::OnceLock::new();
+    // (on a thread of its own, so that not even the first run of a process sees thread-local state
+    // touched by the harness)
     F.get_or_init(|| {
+        std::thread::spawn(render_reference_frames).join().expect("reference frames")
+    })
+}
+
+fn render_reference_frames() -> Vec<(Vec<u8>, Vec<u8>)> {
+    {
         let mut v = Vec::with_capacity(17 * 17);
         for fg in 0..17i64 {
             for bg in 0..17i64 {
@@ -272,7 +280,7 @@ fn reference_frames() -> &'static Vec<(Vec<u8>, Vec<u8>)> {
             }
         }
         v
-    })
+    }
 }
 
 enum Target<'a> {
